@@ -10,3 +10,4 @@ pub mod pipe;
 pub mod rec;
 pub mod rng;
 pub mod spec;
+pub mod userkmer;
